@@ -472,6 +472,8 @@ pub fn run_conv(ts: &mut Toks) -> Option<String> {
         "u32" => conv_res(ts.next()?.parse::<u32>().ok()?.to_jmespath()),
         "u64" => conv_res(ts.next()?.parse::<u64>().ok()?.to_jmespath()),
         "usize" => conv_res(ts.next()?.parse::<usize>().ok()?.to_jmespath()),
+        "i128" => conv_res(ts.next()?.parse::<i128>().ok()?.to_jmespath()),
+        "u128" => conv_res(ts.next()?.parse::<u128>().ok()?.to_jmespath()),
         "f32" => conv_res(f32::from_bits(u32::from_str_radix(ts.next()?, 16).ok()?).to_jmespath()),
         "f64" => conv_res(f64::from_bits(u64::from_str_radix(ts.next()?, 16).ok()?).to_jmespath()),
         "unit" => conv_res(().to_jmespath()),
